@@ -298,6 +298,16 @@ pub struct PeerHandle {
     pub sink_dropped: Arc<AtomicBool>,
     pub source_dropped: Arc<AtomicBool>,
     pub to_client: mpsc::UnboundedSender<PeerMsg>,
+    /// while false the destination accepts no byte from the tunnel (back-pressure)
+    pub accept: Arc<AtomicBool>,
+    pub accept_changed: Arc<tokio::sync::Notify>,
+}
+
+impl PeerHandle {
+    pub fn set_accepting(&self, on: bool) {
+        self.accept.store(on, Ordering::SeqCst);
+        self.accept_changed.notify_waiters();
+    }
 }
 
 pub struct MemSource {
@@ -311,6 +321,8 @@ pub struct MemSink {
     eof_seen: Arc<AtomicBool>,
     dropped: Arc<AtomicBool>,
     echo: Option<mpsc::UnboundedSender<PeerMsg>>,
+    accept: Arc<AtomicBool>,
+    accept_changed: Arc<tokio::sync::Notify>,
 }
 
 impl Drop for MemSource {
@@ -349,6 +361,9 @@ impl ByteSource for MemSource {
 #[async_trait]
 impl ByteSink for MemSink {
     fn write(&mut self, data: Bytes) -> io::Result<Bytes> {
+        if !self.accept.load(Ordering::SeqCst) {
+            return Ok(data);
+        }
         self.received.lock().unwrap().extend_from_slice(&data);
         if let Some(e) = &self.echo {
             let _ = e.send(PeerMsg::Data(data));
@@ -363,7 +378,13 @@ impl ByteSink for MemSink {
         Ok(())
     }
     async fn wait_writable(&mut self) -> io::Result<()> {
-        Ok(())
+        loop {
+            let changed = self.accept_changed.notified();
+            if self.accept.load(Ordering::SeqCst) {
+                return Ok(());
+            }
+            changed.await;
+        }
     }
     async fn flush(&mut self) -> io::Result<()> {
         Ok(())
@@ -379,6 +400,8 @@ pub fn mem_peer(echo: bool) -> (PipeHalves, PeerHandle) {
         sink_dropped: Default::default(),
         source_dropped: Default::default(),
         to_client: tx.clone(),
+        accept: Arc::new(AtomicBool::new(true)),
+        accept_changed: Default::default(),
     };
     let src = MemSource {
         rx,
@@ -390,6 +413,8 @@ pub fn mem_peer(echo: bool) -> (PipeHalves, PeerHandle) {
         eof_seen: h.eof_seen.clone(),
         dropped: h.sink_dropped.clone(),
         echo: echo.then_some(tx),
+        accept: h.accept.clone(),
+        accept_changed: h.accept_changed.clone(),
     };
     ((Box::new(src), Box::new(sink)), h)
 }
